@@ -930,6 +930,11 @@ def wiring():
                 for a in imp.names:
                     if a.name in defs:
                         funcs[a.asname or a.name] = (a.name, [x.arg for x in defs[a.name].args.args])
+        pkgmods = set()
+        for imp in mod.tree.body:
+            if isinstance(imp, ast.ImportFrom) and imp.level >= 1:
+                for a in imp.names:
+                    pkgmods.add(a.asname or a.name)
         for fn in mod.classes[cls].body:
             if not isinstance(fn, ast.FunctionDef):
                 continue
@@ -959,6 +964,8 @@ def wiring():
                 if isinstance(a_, ast.Assign) and len(a_.targets) == 1 and isinstance(a_.targets[0], ast.Name) and a_.targets[0].id not in argn_:
                     defs_.setdefault(a_.targets[0].id, []).append((a_.lineno, a_.value))
 
+            full_ = [False]
+
             def src_(e_, line=None, depth=0):
                 import copy as _copy
                 line = getattr(e_, "lineno", 10 ** 9) if line is None else line
@@ -966,9 +973,10 @@ def wiring():
                 class T(ast.NodeTransformer):
                     def visit_Name(s_, n_):
                         cands = [(l_, v_) for l_, v_ in defs_.get(n_.id, []) if l_ < line]
-                        if cands and depth < 3:
+                        if cands and depth < (6 if full_[0] else 3):
                             l_, v_ = max(cands, key=lambda c: c[0])
-                            if not isinstance(v_, ast.Call) and cnt_.get(n_.id, 0) <= 2:
+                            pure_call = isinstance(v_, ast.Call) and (ast.unparse(v_.func).startswith("np.") or ast.unparse(v_.func).startswith("self."))
+                            if (not isinstance(v_, ast.Call) or (full_[0] and pure_call)) and cnt_.get(n_.id, 0) <= 2:
                                 return ast.parse(src_(v_, l_, depth + 1), mode="eval").body
                         return n_
 
@@ -997,6 +1005,17 @@ def wiring():
                     k += 1
                     continue
                 if not isinstance(n.func, ast.Attribute):
+                    continue
+                if isinstance(n.func.value, ast.Name) and n.func.value.id in pkgmods and n.func.attr[:1].isupper():
+                    # a component class instantiated directly (e.g. the fixed top-hat used for the sigma_8 normalisation): its arguments in
+                    # full, locals written out through numpy calls and calls on self
+                    full_[0] = True
+                    try:
+                        args = [(f"#{i}", src_(a)) for i, a in enumerate(n.args)] + sorted(((kw.arg or "**"), src_(kw.value)) for kw in n.keywords)
+                    finally:
+                        full_[0] = False
+                    rows.append((f"{cls}.{fn.name}" + (f"#{k}" if k else ""), [("callee", callee)] + args))
+                    k += 1
                     continue
                 if re.fullmatch(r"self\.[A-Za-z_]+_model(\.clone)?", callee):
                     args = [(f"#{i}", src_(a)) for i, a in enumerate(n.args)]
